@@ -211,24 +211,52 @@ def gen_cases(rng):
         wrap(h, [("gate", "X", ("array_item", "b", 0))]), ov={"N": n - 1}, twin_ov={"N": n + 1})
     # index into aliases
     n, hdr = base(rng, n=rng.randint(3, 5))
-    start = rng.randint(0, n - 2)
-    stop = rng.randint(start + 1, n)
-    step = rng.choice([1, 1, 2])
-    elems = list(range(start, stop, step))
-    ah = hdr + [("map", "al", "q", start, stop, step)]
-    L = len(elems)
-    for bad in (-1, L, L + 1):
-        add("alias-index-literal:%s" % cls(bad, L), "parse", wrap(ah, [("gate", "X", ("array_item", "al", bad))]),
-            wrap(ah, [("gate", "X", ("array_item", "al", L - 1))]))
-        add("alias-single-literal:%s" % cls(bad, L), "parse", wrap(ah + [("map", "one", "al", bad)], [("gate", "X", "one")]),
-            wrap(ah + [("map", "one", "al", L - 1)], [("gate", "X", "one")]))
-        lh = [("let", "i", bad)] + ah
-        lg = [("let", "i", L - 1)] + ah
-        add("alias-single-let:%s" % cls(bad, L), "fill_in_let", wrap(lh + [("map", "one", "al", "i")], [("gate", "X", "one")]),
-            wrap(lg + [("map", "one", "al", "i")], [("gate", "X", "one")]))
-        m = ("macro", "mr", "r", "k", ("sequential_block", ("gate", "X", ("array_item", "r", "k"))))
-        add("alias-index-macro:%s" % cls(bad, L), "expand_macros", wrap(ah, [("gate", "mr", "al", bad)], [m]),
-            wrap(ah, [("gate", "mr", "al", L - 1)], [m]))
+    for direction in ("up", "down"):
+        if direction == "up":
+            start = rng.randint(0, n - 2)
+            stop = rng.randint(start + 1, n)
+            step = rng.choice([1, 1, 2])
+        else:
+            # an alias counting down has as many elements as range(start, stop, step), no more
+            start = rng.randint(1, n - 1)
+            stop = rng.randint(-1, start - 1)
+            step = rng.choice([-1, -1, -2])
+        elems = list(range(start, stop, step))
+        ah = hdr + [("map", "al", "q", start, stop, step)]
+        L = len(elems)
+        tag = "" if direction == "up" else "counting-down:"
+        for bad in (-1, L, L + 1):
+            add("alias-index-literal:%s%s" % (tag, cls(bad, L)), "parse", wrap(ah, [("gate", "X", ("array_item", "al", bad))]),
+                wrap(ah, [("gate", "X", ("array_item", "al", L - 1))]))
+            add("alias-single-literal:%s%s" % (tag, cls(bad, L)), "parse", wrap(ah + [("map", "one", "al", bad)], [("gate", "X", "one")]),
+                wrap(ah + [("map", "one", "al", L - 1)], [("gate", "X", "one")]))
+            lh = [("let", "i", bad)] + ah
+            lg = [("let", "i", L - 1)] + ah
+            add("alias-single-let:%s%s" % (tag, cls(bad, L)), "fill_in_let", wrap(lh + [("map", "one", "al", "i")], [("gate", "X", "one")]),
+                wrap(lg + [("map", "one", "al", "i")], [("gate", "X", "one")]))
+            add("alias-index-let:%s%s" % (tag, cls(bad, L)), "fill_in_let", wrap(lh, [("gate", "X", ("array_item", "al", "i"))]),
+                wrap(lg, [("gate", "X", ("array_item", "al", "i"))]))
+            add("alias-index-override:%s%s" % (tag, cls(bad, L)), "fill_in_let", wrap(lg, [("gate", "X", ("array_item", "al", "i"))]),
+                wrap(lg, [("gate", "X", ("array_item", "al", "i"))]), ov={"i": bad}, twin_ov={"i": 0})
+            m = ("macro", "mr", "r", "k", ("sequential_block", ("gate", "X", ("array_item", "r", "k"))))
+            add("alias-index-macro:%s%s" % (tag, cls(bad, L)), "expand_macros", wrap(ah, [("gate", "mr", "al", bad)], [m]),
+                wrap(ah, [("gate", "mr", "al", L - 1)], [m]))
+            # a second alias taken from the first must fit into it
+            if bad > 0:
+                add("slice-of-alias-stop-beyond:%s%s" % (tag, cls(bad, L)), "parse",
+                    wrap(ah + [("map", "b2", "al", 0, bad + 1, 1)], [("gate", "X", ("array_item", "b2", 0))]),
+                    wrap(ah + [("map", "b2", "al", 0, L, 1)], [("gate", "X", ("array_item", "b2", 0))]))
+    # an alias without elements (its stop is where it starts, or an explicit 0): it has no element 0 either
+    for shape, (st_, sp_) in (("stop-0", (rng.randint(1, n - 1), 0)), ("0-to-0", (0, 0)), ("default-start-to-0", (None, 0)),
+                              ("start-equals-stop", (1, 1))):
+        empty = ("map", "al", "q", st_, sp_, None)
+        full = ("map", "al", "q", st_, n, None)
+        use0 = [("gate", "X", ("array_item", "al", 0))]
+        add("empty-alias:%s:literal" % shape, "parse", wrap(hdr + [empty], use0), wrap(hdr + [full], use0))
+        le, lf = [("let", "sp", sp_)] + hdr, [("let", "sp", n)] + hdr
+        ml = ("map", "al", "q", st_, "sp", None)
+        add("empty-alias:%s:let" % shape, "fill_in_let", wrap(le + [ml], use0), wrap(lf + [ml], use0))
+        add("empty-alias:%s:override" % shape, "fill_in_let", wrap(lf + [ml], use0), wrap(lf + [ml], use0), ov={"sp": sp_}, twin_ov={"sp": n})
     # ---- F2: slices reaching outside -----------------------------------------------------
     n, hdr = base(rng, n=rng.randint(2, 5))
     good_map = ("map", "al", "q", 0, n, 1)
